@@ -41,7 +41,14 @@ func zz17Run(viaGitInterface bool) {
 	errs := make([]error, nthreads)
 	for t := 0; t < nthreads; t++ {
 		t := t
-		kind := verif.Concrete(verif.Choice("t"+strconv.Itoa(t)+".op", 3))
+		// with three writers the first two are not given every operation (the
+		// roles are symmetric): writer 0 records a branch entry, writer 1 a
+		// branch or staging entry, writer 2 any of the three operations
+		nkinds := 3
+		if nthreads == 3 && t < 2 {
+			nkinds = t + 1
+		}
+		kind := verif.Concrete(verif.Choice("t"+strconv.Itoa(t)+".op", nkinds))
 		verif.Spawn(func() {
 			switch kind {
 			case 0:
@@ -57,15 +64,22 @@ func zz17Run(viaGitInterface bool) {
 			}
 		})
 	}
-	// Partial-order reduction for the git-command variant: commands that only
-	// read content-addressed (immutable) objects, and commit-tree, whose new
-	// object is unreachable until a reference names it, commute with every
-	// other command; control changes hands only at commands that read or
-	// write a reference.  por=0 yields at every command.
-	por := viaGitInterface && verif.Bound("por", 1, 1) == 1
+	// Partial-order reduction: calls (git commands) that only read
+	// content-addressed (immutable) objects, and commit-tree, whose new object
+	// is unreachable until a reference names it, commute with every other
+	// call; control changes hands only at calls that read or write a
+	// reference.  por=0 yields at every call.
+	por := verif.Bound("por", 1, 1) == 1
 	s.OnCall = func(method string) {
-		if por && method != "git rev-parse" && method != "git update-ref" {
-			return
+		if por {
+			switch {
+			case method == "git rev-parse" || method == "git update-ref":
+			case len(method) >= 12 && method[:12] == "GetReference", method == "SetReference", method == "DeleteReference",
+				method == "Commit", method == "CommitUsingSpecificKey", method == "ResetDueToError":
+				// storage-interface calls that read or write a reference
+			default:
+				return
+			}
 		}
 		verif.Yield(method)
 	}
@@ -100,19 +114,21 @@ func zz17Run(viaGitInterface bool) {
 	verif.Assert(singleParent, "single-parent-chain")
 	verif.Assert(chain == len(startIDs)+succeeded, "each-successful-operation-appears-exactly-once-and-failed-ones-not-at-all")
 	consecutive := true
-	duplicate := false
+	stale := true // every number is at most what its position calls for: it was computed from an older tip
 	for i, n := range numbers {
 		if n != uint64(i+1) {
 			consecutive = false
-			if i > 0 && n == numbers[i-1] {
-				duplicate = true
-			}
+		}
+		if n < 1 || n > uint64(i+1) {
+			stale = false
 		}
 	}
 	// Known finding C17-K1: the tip is read once for numbering and again when
-	// the commit is created; two writers that both number from the same tip
-	// both succeed, giving two entries with the same number.
-	k1 := !consecutive && duplicate && succeeded >= 2
+	// the commit is created; a writer whose numbering read is overtaken by
+	// another writer's commit still succeeds, so its entry carries a number
+	// that does not follow its parent's (the same number as an earlier entry,
+	// or a lower one).
+	k1 := !consecutive && stale && succeeded >= 2
 	verif.Witness("C17-K1", k1)
 	verif.Assert(consecutive || k1, "numbers-are-consecutive")
 	if consecutive {
